@@ -600,7 +600,8 @@ Definition nth_full (t : text) : pr (Z * Z) :=
   pdo (a_opt, r2) <- popt (digit1 r1 []) r1;
   pdo (_, r3) <- ptag [110] r2;
   let r4 := skip_ws r3 in
-  pdo (b_sign, r5) <- sign r4;
+  pdo (b_sign, r5a) <- sign r4;
+  let r5 := skip_ws r5a in
   pdo (b_val, r6) <- digit1 r5 [];
   match (match a_opt with Some d => i32_of_digits d | None => Some 1%Z end), i32_of_digits b_val with
   | Some a, Some b => POk ((a * a_sign)%Z, (b * b_sign)%Z) r6
@@ -687,7 +688,7 @@ Definition parse_selector (t : text) : pr selector :=
 Record cssruleset := mkcrs { crs_selectors : list selector; crs_decls : list declaration }.
 
 Definition comma_sep (t : text) : pr unit :=
-  pdo (_, r) <- ptag [44] t; POk tt (skip_ws r).
+  pdo (_, r) <- ptag [44] (skip_ws t); POk tt (skip_ws r).
 
 Definition parse_ruleset (t : text) : pr cssruleset :=
   let r0 := skip_ws t in
